@@ -517,24 +517,12 @@ Proof.
   - intros j r H. discriminate.
 Qed.
 
-(** ** The add-hook corner: when the cron hook rejects the fact, the rule of
-    the fact is absent or scheduled, so the state is untouched. *)
+(** ** The add-hook corner: when the add hook (the harness's validating hook or
+    the cron hook) rejects the fact, the changes made to the rule index are
+    undone and the state is untouched (repair of D51 in /repo). *)
 
 Lemma alookup_ainsert_ne {A} k j (v : A) l : j <> k -> alookup j (ainsert k v l) = alookup j l.
 Proof. apply alookup_ainsert_other. Qed.
-
-Lemma add_hook_err_untouched s fact e r :
-  add_hook_err s fact = Some e -> extract_rule fact false = Ok (Some r) -> is_scheduled r = true.
-Proof.
-  unfold add_hook_err, extract_rule, is_scheduled.
-  destruct (negb (st_hooks s)); [discriminate|].
-  destruct (jget "rule" fact) as [[| | | | |rm]|]; try discriminate.
-  destruct (alookup "schedule" rm) as [sc|] eqn:Es; [|discriminate].
-  intros _ H. injection H as <-. cbn [jget].
-  destruct (jget "expires" fact) as [ex|].
-  - rewrite alookup_ainsert_other; [rewrite Es; reflexivity|discriminate].
-  - rewrite Es. reflexivity.
-Qed.
 
 Lemma st_add_hook_err_state s given x now fresh aux id fact e :
   prepare_fact given x now fresh aux = Ok (id, fact) -> st_kind s = Indexed ->
@@ -543,8 +531,7 @@ Lemma st_add_hook_err_state s given x now fresh aux id fact e :
 Proof.
   intros Hp Hk He. unfold st_add. rewrite Hp, Hk.
   destruct (extract_rule_false_ok fact) as [rule Hr]. rewrite Hr, He.
-  destruct rule as [r|]; [|reflexivity].
-  try rewrite (add_hook_err_untouched s fact e r He Hr). reflexivity.
+  reflexivity.
 Qed.
 
 Lemma st_add_J s given x now fresh aux : J s -> J (fst (st_add s given x now fresh aux)).
